@@ -73,6 +73,11 @@ def shard_fn(shard, nshards, seed, tier, exe, ntrees, ndoubles):
         cid = "%d.%d" % (shard, i)
         extra = []
         cases_b0 = "B 0 " + " ".join(toks)
+        pre = []
+        if rng.random() < 0.12 and toks != ["n"]:
+            # what is serialized (and mutated below) is a deep copy of the tree that was built; the original is destroyed first
+            pre = ["DCOPY 0 1 0", "PUT 0", "ALIAS 1 0"]
+            sh.count("trees.deep_copied_before_serializing")
         if rng.random() < 0.12:
             # a node that had a custom serializer for a while and was reset to the default one must serialize like any other node
             path, t = random_path(rng, toks)
@@ -130,8 +135,8 @@ def shard_fn(shard, nshards, seed, tier, exe, ntrees, ndoubles):
                 value = set_at(value, path, nv)
                 sh.count("trees.mutated_in_place_before_serializing")
                 break
-        cases.append((cid, [cases_b0] + extra + ["S64 0", "PUT 0"]))
-        meta[cid] = ("tree", toks, value, 1 + len(extra))
+        cases.append((cid, [cases_b0] + pre + extra + ["S64 0", "PUT 0"]))
+        meta[cid] = ("tree", toks, value, 1 + len(pre) + len(extra))
     # many single doubles under PLAIN and NOZERO (the trimming logic is shape dependent)
     per = ndoubles // nshards
     tg2 = TreeGen(rng, retained=False)
